@@ -1,6 +1,6 @@
 PROPS["C15"] = dict(
     harnesses=[dict(name="C15", procs_quick=2, procs_thorough=16, extra=["-lquadmath"])],
-    gens=["gen_auxseries"],
+    gens=["gen_auxseries", "gen_carlson"],
     rule=("auxiliary latitudes: ellipsoids f in {WGS84, +-1/150, 1/297, +-1e-3, 0, 1e-6, random |f| <= 1/150} (series and exact) and b/a log-uniform in "
           "[0.01, 100] plus a list (exact only); geographic latitude: uniform, 90 - 10^-k deg (k <= 15), tangents 10^+-k (k <= 300), denormal tangents and "
           "cotangents, 45 deg +- ulps, unnormalized (y, x) pairs, all four quadrants; for each, the six latitudes are produced by the implementation and all 36 "
